@@ -338,6 +338,8 @@ def expected_view(opname, kw, dflt, conn_host, script):
         if not e and ctx[0][2] is None:
             return None
         for o in objs:
+            if post == 'pullInsts' and isinstance(o, pywbem.CIMInstance):
+                o.path = None          # PullInstances / OpenQueryInstances return INSTANCE elements: no path
             p = o.path if isinstance(o, pywbem.CIMInstance) else o
             if p is not None and p.namespace is not None:
                 with_host(p)
